@@ -3,7 +3,8 @@
    "All blocks unvalidated" is what the soundness of the contexts (C06-C10, RunLemmas.solve_sound) gives for a
    run carrying the dangerous value; that last link is stated per domain in Lemmas/ExecLemmas when present. *)
 From Coq Require Import List String.
-From Tealer Require Import Syntax Cfg Analysis Detect Runs Paths SearchLemmas PathCut Compose.
+From Coq Require Import ZArith.
+From Tealer Require Import LeafPrelude Leaves Syntax Parse Cfg Keys Analysis Domains Detect Eval Runs Paths Exec LeafLemmas SingleLemmas SearchLemmas PathCut Compose GraphWf ExecLemmas GraphOk NoMiss.
 Import ListNotations.
 
 (* every accepting run (loops, shared and nested subroutines) cuts down to a genuine path through a subset of its blocks *)
@@ -21,5 +22,33 @@ Theorem C01_unvalidated_run_reported : forall f validated report fuel cfgs ps,
   detect_paths f validated report fuel = Done ps -> ps <> [].
 Proof. exact unvalidated_run_reported_nonempty. Qed.
 
+(* END TO END, missing-fee-check: if a concrete approving execution (Spec/Exec.v) has Fee > 272000 then the
+   detector reports at least one path.  fuel / fuel' arbitrary (Done excludes out-of-fuel). *)
+Theorem C01_fee_no_miss_end_to_end : forall e sem f fuel fuel' res cfgs ps fee,
+  sem_ok e sem -> env_ok e -> fn_intcs f = e_intcs e -> graph_ok f ->
+  fee_leaves_ok f KSelf -> fee_leaves_ok f (KAtIndex (e_own e)) -> int_leaves_ok f true -> int_leaves_ok f false ->
+  run_all f fuel = Done res -> Accepts e sem f cfgs -> nonrecursive f cfgs ->
+  e_field e (e_own e) "Fee"%string = VInt fee -> (MAX_TRANSACTION_COSTz < fee <= MAX_UINT64z)%Z ->
+  run_detector f res fuel' "missing-fee-check"%string checks_missing_fee_check = Done ps -> ps <> [].
+Proof. exact C01_fee_no_miss. Qed.
+
+(* END TO END, rekey-to: RekeyTo = an address not listed anywhere in the tool's result (never named by the contract) *)
+Theorem C01_rekey_no_miss_end_to_end_partial : forall e sem f fuel fuel' res cfgs ps a,
+  sem_ok e sem -> env_ok e -> fn_intcs f = e_intcs e -> graph_ok f ->
+  addr_leaves_ok e f KSelf "RekeyTo"%string -> addr_leaves_ok e f (KAtIndex (e_own e)) "RekeyTo"%string ->
+  int_leaves_ok f true -> int_leaves_ok f false ->
+  run_all f fuel = Done res -> Accepts e sem f cfgs -> nonrecursive f cfgs ->
+  e_field e (e_own e) "RekeyTo"%string = VAddr a -> a <> "ZERO"%string -> is_marker a = false ->
+  fresh_in res "RekeyTo"%string (abs_name e a) ->
+  run_detector f res fuel' "rekey-to"%string checks_rekey_to = Done ps -> ps <> [].
+Proof. exact C01_rekey_no_miss_partial. Qed.
+
+(* the graph hypotheses hold for every structured parsed program *)
+Theorem C01_graph_ok_for_structured_programs : forall p t, parse_teal p = Ok t -> struct_ok t -> graph_ok (whole_function t).
+Proof. exact graph_ok_whole_function. Qed.
+
 Print Assumptions C01_run_cuts_to_path.
 Print Assumptions C01_unvalidated_run_reported.
+Print Assumptions C01_fee_no_miss_end_to_end.
+Print Assumptions C01_rekey_no_miss_end_to_end_partial.
+Print Assumptions C01_graph_ok_for_structured_programs.
